@@ -129,7 +129,10 @@ def expand(family, n, p1, p2, fill_seed, valdist, zero_diag, permute, cplx, sing
     for (i, j, re_, im_) in ent:
         rowsum[i] = rowsum.get(i, 0.0) + abs(re_) + abs(im_)
     for (i, j) in sorted(T):
-        if valdist in ("dominant", "int"):
+        if valdist == "rowdom":
+            m = rowsum.get(i, 0.0) * 1.25 + 0.05
+            re_ = m * (1 if rng.random() < 0.5 else -1); im_ = (float(rng.uniform(-0.3, 0.3)) * m) if cplx else 0.0
+        elif valdist in ("dominant", "int"):
             m = max(colsum.get(j, 0.0), rowsum.get(i, 0.0)) * 1.25 + 1.0
             if valdist == "int": m = float(math.ceil(m))
             re_ = m * (1 if rng.random() < 0.5 else -1); im_ = (float(rng.uniform(-0.3, 0.3)) * m) if cplx else 0.0
